@@ -5,7 +5,7 @@ P=$1; T=$2; shift 2
 cd /repo || exit 2
 test -z "$(git status --porcelain)" || { echo "/repo is not clean"; exit 2; }
 git apply "$P" || exit 3
-trap 'git -C /repo checkout -- .' EXIT INT TERM
+trap 'git -C /repo checkout -- .; git -C /verif checkout -- evidence' EXIT INT TERM
 for id in "$@"; do
   echo "== $id ($T) against $(basename $(dirname $P))"
   (cd /verif && python3 tools/check.py $id --tier $T > /verif/.build/try_$id.log 2>&1; echo "   exit=$?")
